@@ -1,9 +1,520 @@
-// C18: not built yet (stub so that main.rs is already wired; replace the body, keep the two signatures).
-use crate::util::Sink;
+// C18: drift-time lookup — case generation and implementation observations.
+//
+// Case lines (floats are 16-hex-digit bit patterns):
+//   drift <t> <phi> <z>          SpacePoint::try_from(Avalanche{t, phi, z, ..}) through the public API
+//                                -> ok <r> <phi> <z> | err-time | err-z | panic
+//   drift-ntab                   number of tables of verif::drift_tables()
+//   drift-tab <i>                <knots> <z bound> <FNV-1a-64 of all bit patterns>  (tie of coq/Gen/Drift.v)
+//   drift-dump                   all tables as bit patterns (read by the translator plugin tools/genx_drift.py; not a case)
+//   rel-drift-mono <z> <t1> <t2> implementation only: t1 <= t2 both in range  =>  r(t1) >= r(t2)
+//   rel-drift-sym <t> <phi> <z>  lookup at z and -z: same outcome, r and phi bit-identical, z negated
+//   rel-drift-range <t> <z>      r within [min,max] radius of the slice, 0 <= correction <= slice max
+//   rel-drift-knots <i>          every tabulated time of table i reproduces the tabulated radius to 1e-12 m (z = +-bound_i)
+//   rel-drift-steps <i>          every tabulated 8 ns step of table i OUTSIDE the known class is < 0.5 mm
+//   rel-drift-step8 <z> <t>      |r(t) - r(t + 8 ns)| <= largest tabulated step of the segments touched (+1e-12),
+//                                and < 0.5 mm when no touched segment is in the known class
+//   relkf-drift-step <i> <j>     known class `drift_step_ge_half_mm` (F8): step of segment j of table i, looked up at the
+//                                two knots through the public API; `fails ...` while the data still has the step
+use crate::util::*;
+use alpha_g_physics::{Avalanche, SpacePoint, TryDriftLookupError};
+use std::marker::PhantomData;
+use std::sync::OnceLock;
+use uom::si::f64::{Angle, Length, Time};
 
-pub fn run(_tier: &str, _seed: u64, _s: &mut Sink) {}
+/// Known finding F8, class `drift_step_ge_half_mm`: (table, left knot) of the segments of the shipped table whose
+/// radius step is >= 0.5 mm (the same list is `known_steps` in coq/Recon/Drift.v).
+pub const KNOWN_STEPS: &[(usize, usize)] = &[
+    (0, 17), (1, 17), (2, 17), (3, 17), (4, 17), (5, 17), (6, 17), (7, 17), (8, 17), (9, 17), (10, 17), (11, 17),
+    (12, 17), (13, 17), (14, 17), (15, 17), (16, 17), (17, 17), (18, 17), (19, 17), (24, 17), (25, 17), (26, 17),
+    (27, 17), (28, 17), (29, 17), (30, 17), (31, 17), (32, 17), (33, 17), (34, 17), (35, 17), (36, 17), (37, 17),
+    (38, 17), (39, 17), (40, 17), (41, 17), (42, 17), (43, 17), (44, 17), (45, 17), (46, 17), (47, 17), (48, 17),
+    (49, 17), (50, 17), (51, 17), (52, 17), (53, 17), (54, 17), (55, 17), (72, 17), (75, 17), (80, 17), (81, 1),
+    (81, 2), (81, 4), (81, 6), (81, 8), (81, 10), (81, 12), (81, 13), (81, 15), (83, 17), (87, 1), (87, 11), (88,
+    0), (88, 1), (88, 2), (88, 3), (88, 4), (88, 5), (88, 6), (88, 7), (88, 8), (88, 9), (88, 10), (88, 11), (88,
+    12), (88, 13), (88, 14), (88, 15), (88, 16), (89, 0), (89, 1), (89, 2), (89, 3), (89, 4), (89, 5), (89, 6),
+    (89, 7), (89, 8), (89, 9), (89, 10), (89, 11), (89, 12), (89, 13), (89, 14), (89, 15), (89, 16), (90, 0), (90,
+    1), (90, 2), (90, 3), (90, 4), (90, 5), (90, 6), (90, 7), (90, 8), (90, 9), (90, 10), (90, 11), (90, 12), (90,
+    13), (90, 14), (90, 15), (90, 16), (91, 0), (91, 1), (91, 2), (91, 3), (91, 4), (91, 5), (91, 6), (91, 7),
+    (91, 8), (91, 9), (91, 10), (91, 11), (91, 12), (91, 13), (91, 14), (91, 15), (91, 16)
+];
+
+const HALF_MM: f64 = 0.0005;
+const EIGHT_NS: f64 = 8e-9;
+
+type Tables = Vec<(Vec<(f64, f64, f64)>, f64)>;
+fn tables() -> &'static Tables {
+    static T: OnceLock<Tables> = OnceLock::new();
+    T.get_or_init(alpha_g_physics::verif::drift_tables)
+}
+
+// quantities with exactly the given value (the uom constructors add a 0.0 constant, which would turn -0.0 into +0.0)
+fn time(v: f64) -> Time {
+    Time { dimension: PhantomData, units: PhantomData, value: v }
+}
+fn length(v: f64) -> Length {
+    Length { dimension: PhantomData, units: PhantomData, value: v }
+}
+fn angle(v: f64) -> Angle {
+    Angle { dimension: PhantomData, units: PhantomData, value: v }
+}
+
+#[derive(Clone, Copy, PartialEq, Debug)]
+pub enum Out {
+    Ok(f64, f64, f64),
+    ErrTime,
+    ErrZ,
+    Panic,
+}
+
+pub fn lookup(t: f64, phi: f64, z: f64) -> Out {
+    let r = catch(move || {
+        SpacePoint::try_from(Avalanche {
+            t: time(t),
+            phi: angle(phi),
+            z: length(z),
+            wire_amplitude: 1.0,
+            pad_amplitude: 1.0,
+        })
+    });
+    match r {
+        None => Out::Panic,
+        Some(Ok(p)) => Out::Ok(p.r.value, p.phi.value, p.z.value),
+        Some(Err(TryDriftLookupError::DriftTimeOutOfRange(_))) => Out::ErrTime,
+        Some(Err(TryDriftLookupError::AxialPositionOutOfRange(_))) => Out::ErrZ,
+    }
+}
+
+fn show(x: f64) -> String {
+    if x.is_nan() {
+        "nan".to_string()
+    } else {
+        format!("{:016x}", x.to_bits())
+    }
+}
+fn parse(s: &str) -> Option<f64> {
+    u64::from_str_radix(s, 16).ok().map(f64::from_bits)
+}
+
+pub fn observe(t: f64, phi: f64, z: f64) -> String {
+    match lookup(t, phi, z) {
+        Out::Ok(r, p, z) => format!("ok {} {} {}", show(r), show(p), show(z)),
+        Out::ErrTime => "err-time".to_string(),
+        Out::ErrZ => "err-z".to_string(),
+        Out::Panic => "panic".to_string(),
+    }
+}
+
+fn fnv_u64(mut h: u64, x: u64) -> u64 {
+    for b in x.to_le_bytes() {
+        h = (h ^ b as u64).wrapping_mul(0x100000001b3);
+    }
+    h
+}
+fn table_obs(i: usize) -> String {
+    match tables().get(i) {
+        None => "no-such-table".to_string(),
+        Some((t, b)) => {
+            let mut h = 0xcbf29ce484222325u64;
+            for &(x, y, z) in t {
+                h = fnv_u64(fnv_u64(fnv_u64(h, x.to_bits()), y.to_bits()), z.to_bits());
+            }
+            format!("{} {} {:016x}", t.len(), show(*b), h)
+        }
+    }
+}
+
+// ---- bracket recomputed in the harness from the implementation's own tables (oracle side only) ----
+fn slice_of(z: f64) -> Option<usize> {
+    let za = z.abs();
+    tables().iter().position(|(_, b)| *b >= za)
+}
+/// index of the left knot of the segment used for t (None when out of range)
+fn segment_of(tab: &[(f64, f64, f64)], t: f64) -> Option<usize> {
+    if !(t >= tab[0].0 && t <= tab[tab.len() - 1].0) {
+        return None;
+    }
+    let rhs = tab.iter().position(|k| k.0 > t).unwrap_or(tab.len() - 1);
+    Some(rhs - 1)
+}
+fn is_known(i: usize, j: usize) -> bool {
+    KNOWN_STEPS.contains(&(i, j))
+}
+
+fn rel_mono(z: f64, t1: f64, t2: f64) -> String {
+    match (lookup(t1, 0.0, z), lookup(t2, 0.0, z)) {
+        (Out::Ok(r1, _, _), Out::Ok(r2, _, _)) => {
+            if t1 <= t2 && r1 < r2 {
+                format!("fails r({})={} < r({})={}", show(t1), show(r1), show(t2), show(r2))
+            } else {
+                "holds".to_string()
+            }
+        }
+        (Out::Panic, _) | (_, Out::Panic) => "fails panic".to_string(),
+        _ => "holds".to_string(),
+    }
+}
+fn rel_sym(t: f64, phi: f64, z: f64) -> String {
+    let (a, b) = (lookup(t, phi, z), lookup(t, phi, -z));
+    let same = match (a, b) {
+        (Out::Ok(r1, p1, z1), Out::Ok(r2, p2, z2)) => {
+            r1.to_bits() == r2.to_bits() && p1.to_bits() == p2.to_bits() && z1.to_bits() == (-z2).to_bits()
+        }
+        (Out::ErrTime, Out::ErrTime) | (Out::ErrZ, Out::ErrZ) => true,
+        _ => false,
+    };
+    if same {
+        "holds".to_string()
+    } else {
+        format!("fails {:?} vs {:?}", a, b)
+    }
+}
+fn rel_range(t: f64, z: f64) -> String {
+    match lookup(t, 0.0, z) {
+        Out::Ok(r, p, _) => {
+            let Some(i) = slice_of(z) else { return "fails ok-outside-every-slice".to_string() };
+            let tab = &tables()[i].0;
+            let rmax = tab.iter().map(|k| k.1).fold(f64::MIN, f64::max);
+            let rmin = tab.iter().map(|k| k.1).fold(f64::MAX, f64::min);
+            let cmax = tab.iter().map(|k| k.2).fold(f64::MIN, f64::max);
+            let c = -p; // phi = 0, so phi_out = 0 - correction exactly
+            if !(r >= rmin && r <= rmax) {
+                format!("fails radius {} outside [{}, {}]", r, rmin, rmax)
+            } else if !(c >= 0.0 && c <= cmax) {
+                format!("fails correction {} outside [0, {}]", c, cmax)
+            } else {
+                "holds".to_string()
+            }
+        }
+        Out::Panic => "fails panic".to_string(),
+        _ => "holds".to_string(),
+    }
+}
+fn rel_knots(i: usize) -> String {
+    let Some((tab, b)) = tables().get(i) else { return "fails no-such-table".to_string() };
+    for z in [*b, -*b] {
+        for (j, k) in tab.iter().enumerate() {
+            match lookup(k.0, 0.0, z) {
+                Out::Ok(r, _, _) if (r - k.1).abs() <= 1e-12 => {}
+                o => return format!("fails knot {} z={} tabulated {} got {:?}", j, z, k.1, o),
+            }
+        }
+    }
+    "holds".to_string()
+}
+/// radius step of segment j of table i, looked up through the public API at the two knots
+fn api_step(i: usize, j: usize) -> Option<(f64, f64)> {
+    let (tab, b) = tables().get(i)?;
+    if j + 1 >= tab.len() {
+        return None;
+    }
+    match (lookup(tab[j].0, 0.0, *b), lookup(tab[j + 1].0, 0.0, *b)) {
+        (Out::Ok(r1, _, _), Out::Ok(r2, _, _)) => Some((r1, r2)),
+        _ => None,
+    }
+}
+fn rel_steps(i: usize) -> String {
+    let Some((tab, _)) = tables().get(i) else { return "fails no-such-table".to_string() };
+    for j in 0..tab.len() - 1 {
+        if is_known(i, j) {
+            continue;
+        }
+        match api_step(i, j) {
+            Some((r1, r2)) if (r1 - r2).abs() < HALF_MM => {}
+            Some((r1, r2)) => {
+                return format!("fails segment {} step={:.6}mm r={}->{} not in the known class", j, (r1 - r2) * 1e3, show(r1), show(r2))
+            }
+            None => return format!("fails segment {} lookup at a knot failed", j),
+        }
+    }
+    "holds".to_string()
+}
+fn relkf_step(i: usize, j: usize) -> String {
+    match api_step(i, j) {
+        Some((r1, r2)) if (r1 - r2).abs() < HALF_MM => "holds".to_string(),
+        Some((r1, r2)) => format!("fails step={:.6}mm r={}->{} between lookups 8 ns apart", (r1 - r2) * 1e3, show(r1), show(r2)),
+        None => "holds".to_string(),
+    }
+}
+fn rel_step8(z: f64, t: f64) -> String {
+    let t2 = t + EIGHT_NS;
+    match (lookup(t, 0.0, z), lookup(t2, 0.0, z)) {
+        (Out::Ok(r1, _, _), Out::Ok(r2, _, _)) => {
+            let Some(i) = slice_of(z) else { return "fails ok-outside-every-slice".to_string() };
+            let tab = &tables()[i].0;
+            let (Some(a), Some(b)) = (segment_of(tab, t), segment_of(tab, t2)) else {
+                return "fails ok-outside-table-range".to_string();
+            };
+            let mut max_step = 0.0f64;
+            let mut known = false;
+            for j in a..=b {
+                max_step = max_step.max(tab[j].1 - tab[j + 1].1);
+                known |= is_known(i, j);
+            }
+            let d = (r1 - r2).abs();
+            if d > max_step + 1e-12 {
+                format!("fails jump {:e} exceeds the largest touched tabulated step {:e} (table {} segments {}..={})", d, max_step, i, a, b)
+            } else if !known && d >= HALF_MM {
+                format!("fails jump {:e} >= 0.5 mm, no touched segment in the known class (table {} segments {}..={})", d, i, a, b)
+            } else {
+                "holds".to_string()
+            }
+        }
+        (Out::Panic, _) | (_, Out::Panic) => "fails panic".to_string(),
+        _ => "holds".to_string(),
+    }
+}
 
 /// implementation observation for a case line of this module (None: not one of mine)
-pub fn observe_line(_line: &str) -> Option<String> {
-    None
+pub fn observe_line(line: &str) -> Option<String> {
+    let f: Vec<&str> = line.split(' ').collect();
+    let p = |k: usize| f.get(k).and_then(|s| parse(s));
+    let n = |k: usize| f.get(k).and_then(|s| s.parse::<usize>().ok());
+    let bad = || Some("bad-case".to_string());
+    match f[0] {
+        "drift" => match (p(1), p(2), p(3)) {
+            (Some(t), Some(phi), Some(z)) => Some(observe(t, phi, z)),
+            _ => bad(),
+        },
+        "drift-ntab" => Some(tables().len().to_string()),
+        // used by tools/genx_drift.py: the tables exactly as the library parsed them (serde_json's float parser is
+        // not correctly rounded, so they cannot be re-derived from the JSON text by another parser)
+        "drift-dump" => {
+            let mut o = String::with_capacity(3 << 20);
+            o.push_str(&tables().len().to_string());
+            for (t, b) in tables() {
+                o.push_str(&format!(" | {} {}", t.len(), show_raw(*b)));
+                for &(x, y, z) in t {
+                    o.push_str(&format!(" {} {} {}", show_raw(x), show_raw(y), show_raw(z)));
+                }
+            }
+            Some(o)
+        }
+        "drift-tab" => n(1).map(table_obs).or_else(bad),
+        "rel-drift-mono" => match (p(1), p(2), p(3)) {
+            (Some(z), Some(t1), Some(t2)) => Some(rel_mono(z, t1, t2)),
+            _ => bad(),
+        },
+        "rel-drift-sym" => match (p(1), p(2), p(3)) {
+            (Some(t), Some(phi), Some(z)) => Some(rel_sym(t, phi, z)),
+            _ => bad(),
+        },
+        "rel-drift-range" => match (p(1), p(2)) {
+            (Some(t), Some(z)) => Some(rel_range(t, z)),
+            _ => bad(),
+        },
+        "rel-drift-knots" => n(1).map(rel_knots).or_else(bad),
+        "rel-drift-steps" => n(1).map(rel_steps).or_else(bad),
+        "rel-drift-step8" => match (p(1), p(2)) {
+            (Some(z), Some(t)) => Some(rel_step8(z, t)),
+            _ => bad(),
+        },
+        "relkf-drift-step" => match (n(1), n(2)) {
+            (Some(i), Some(j)) => Some(relkf_step(i, j)),
+            _ => bad(),
+        },
+        _ => None,
+    }
+}
+
+// ---------------------------------------------------------------------------------------------------------------
+// generators
+// ---------------------------------------------------------------------------------------------------------------
+fn up(x: f64) -> f64 {
+    // next representable value towards +inf (finite x)
+    if x == 0.0 {
+        return f64::from_bits(1);
+    }
+    let b = x.to_bits();
+    f64::from_bits(if x > 0.0 { b + 1 } else { b - 1 })
+}
+fn down(x: f64) -> f64 {
+    -up(-x)
+}
+/// uniform in [lo, hi]
+fn uniform(r: &mut Rng, lo: f64, hi: f64) -> f64 {
+    let u = (r.next() >> 11) as f64 / (1u64 << 53) as f64;
+    lo + u * (hi - lo)
+}
+fn rand_phi(r: &mut Rng) -> f64 {
+    match r.below(6) {
+        0 => 0.0,
+        1 => -0.0,
+        _ => uniform(r, -3.2, 3.2),
+    }
+}
+/// a z inside slice i (bound itself, interior, just above the previous bound), random sign
+fn z_in_slice(r: &mut Rng, i: usize) -> f64 {
+    let t = tables();
+    let hi = t[i].1;
+    let lo = if i == 0 { 0.0 } else { up(t[i - 1].1) };
+    let z = match r.below(4) {
+        0 => hi,
+        1 => lo,
+        _ => uniform(r, lo, hi),
+    };
+    if r.chance(1, 2) {
+        -z
+    } else {
+        z
+    }
+}
+
+struct Gen<'a> {
+    s: &'a mut Sink,
+}
+impl Gen<'_> {
+    fn point(&mut self, label: &str, t: f64, phi: f64, z: f64) {
+        let o = observe(t, phi, z);
+        let nontrivial = o != "err-z" && o != "panic";
+        self.s.put(&format!("drift {} {} {}", show_raw(t), show_raw(phi), show_raw(z)), &o, label, nontrivial);
+    }
+    fn line(&mut self, label: &str, case: String) {
+        let o = observe_line(&case).unwrap_or_else(|| "unknown-case".to_string());
+        self.s.put(&case, &o, label, true);
+    }
+}
+// case lines carry the raw bit pattern (NaN inputs included)
+fn show_raw(x: f64) -> String {
+    format!("{:016x}", x.to_bits())
+}
+
+pub fn run(tier: &str, seed: u64, s: &mut Sink) {
+    let mut r = Rng::new(seed ^ 0xC18);
+    let thorough = tier == "thorough";
+    let tabs = tables();
+    let nt = tabs.len();
+    let mut g = Gen { s };
+
+    // 1. tie of the generated tables
+    g.line("tables", "drift-ntab".to_string());
+    for i in 0..nt + 1 {
+        // one past the end: both sides must say no-such-table
+        g.line("tables", format!("drift-tab {}", i));
+    }
+
+    // 2. the witness of known finding F8 (DESIGN.md section 9): z = 0, t = 136 ns / 144 ns; and +-0
+    for &(t, z) in &[(1.36e-7, 0.0), (1.44e-7, 0.0), (0.0, 0.0), (-0.0, 0.0), (0.0, -0.0), (-0.0, -0.0), (1e-6, -0.0)] {
+        g.point("zero", t, 0.5, z);
+    }
+
+    // 3. every slice bound, exact and +-1 ulp, both signs, at first / interior / last time of the selected table
+    for i in 0..nt {
+        let b = tabs[i].1;
+        for z0 in [b, up(b), down(b)] {
+            for z in [z0, -z0] {
+                // the table the implementation will select for this z (or the last one when out of range)
+                let sel = slice_of(z).unwrap_or(nt - 1);
+                let tab = &tabs[sel].0;
+                let first = tab[0].0;
+                let last = tab[tab.len() - 1].0;
+                let mid = tab[r.below(tab.len() as u64) as usize].0;
+                let ts: Vec<f64> = if thorough {
+                    vec![first, down(first), last, up(last), mid, up(mid), uniform(&mut r, first, last)]
+                } else {
+                    vec![first, last, up(last), uniform(&mut r, first, last)]
+                };
+                for t in ts {
+                    let phi = rand_phi(&mut r);
+                    g.point("slice-bound", t, phi, z);
+                }
+            }
+        }
+    }
+
+    // 4. tabulated times exact and +-1 ulp: first/last entries of all tables; thorough: every knot
+    for i in 0..nt {
+        let tab = &tabs[i].0;
+        let n = tab.len();
+        let mut js: Vec<usize> = if thorough {
+            (0..n).collect()
+        } else {
+            let mut v = vec![0, 1, 2, n - 3, n - 2, n - 1];
+            for _ in 0..6 {
+                v.push(r.below(n as u64) as usize);
+            }
+            v
+        };
+        js.dedup();
+        for j in js {
+            let t0 = tab[j].0;
+            for t in [t0, up(t0), down(t0)] {
+                let z = z_in_slice(&mut r, i);
+                let phi = rand_phi(&mut r);
+                g.point("knot", t, phi, z);
+            }
+        }
+    }
+
+    // 5. random points of the property domain
+    let n_rand = if thorough { 60_000 } else { 4_000 };
+    for _ in 0..n_rand {
+        let z = uniform(&mut r, -1.3, 1.3);
+        let t = uniform(&mut r, -1e-6, 5e-6);
+        let phi = rand_phi(&mut r);
+        g.point("random", t, phi, z);
+    }
+    // random points inside a slice and inside its time range (all succeed)
+    for _ in 0..n_rand / 2 {
+        let i = r.below(nt as u64) as usize;
+        let z = z_in_slice(&mut r, i);
+        let tab = &tabs[i].0;
+        let t = uniform(&mut r, tab[0].0, tab[tab.len() - 1].0);
+        let phi = rand_phi(&mut r);
+        g.point("random-in-range", t, phi, z);
+    }
+
+    // 6. outside the property domain (NaN, infinities, huge): still compared, the model covers them
+    let specials = [f64::NAN, f64::INFINITY, f64::NEG_INFINITY, 1e300, -1e300, f64::MIN_POSITIVE, 5e-324, -5e-324];
+    for &x in &specials {
+        g.point("outside-domain", x, 0.25, 0.1);
+        g.point("outside-domain", 1e-6, 0.25, x);
+        g.point("outside-domain", 1e-6, x, 0.1);
+        g.point("outside-domain", x, x, x);
+    }
+
+    // 7. implementation-only relations
+    for i in 0..nt {
+        g.line("rel-knots", format!("rel-drift-knots {}", i));
+        g.line("rel-steps", format!("rel-drift-steps {}", i));
+    }
+    let n_rel = if thorough { 20_000 } else { 1_500 };
+    for _ in 0..n_rel {
+        let i = r.below(nt as u64) as usize;
+        let tab = &tabs[i].0;
+        let n = tab.len();
+        let z = z_in_slice(&mut r, i);
+        let (first, last) = (tab[0].0, tab[n - 1].0);
+        // monotone: two times, often in the same or adjacent segments, often at knots +-1 ulp
+        let j = r.below(n as u64 - 1) as usize;
+        let (a, b) = match r.below(4) {
+            0 => (uniform(&mut r, first, last), uniform(&mut r, first, last)),
+            1 => (uniform(&mut r, tab[j].0, tab[j + 1].0), uniform(&mut r, tab[j].0, tab[j + 1].0)),
+            2 => (down(tab[j + 1].0), tab[j + 1].0),
+            _ => (tab[j + 1].0, up(tab[j + 1].0).min(last)),
+        };
+        let (t1, t2) = if a <= b { (a, b) } else { (b, a) };
+        g.line("rel-mono", format!("rel-drift-mono {} {} {}", show_raw(z), show_raw(t1), show_raw(t2)));
+        let t = uniform(&mut r, first, last);
+        g.line("rel-range", format!("rel-drift-range {} {}", show_raw(t), show_raw(z)));
+        let zz = uniform(&mut r, -1.3, 1.3);
+        let tt = uniform(&mut r, -1e-6, 5e-6);
+        let (zs, tsym) = if r.chance(1, 2) { (z, t) } else { (zz, tt) };
+        g.line("rel-sym", format!("rel-drift-sym {} {} {}", show_raw(tsym), show_raw(rand_phi(&mut r)), show_raw(zs)));
+        let t8 = uniform(&mut r, first, last - EIGHT_NS);
+        g.line("rel-step8", format!("rel-drift-step8 {} {}", show_raw(z), show_raw(t8)));
+    }
+    // lookups 8 ns apart that touch a segment of the known class (the jump must be explained by it)
+    for &(i, j) in KNOWN_STEPS {
+        if i < nt && j + 1 < tabs[i].0.len() {
+            let tab = &tabs[i].0;
+            let z = z_in_slice(&mut r, i);
+            let t8 = uniform(&mut r, tab[j.saturating_sub(1)].0, tab[j + 1].0);
+            g.line("rel-step8-known", format!("rel-drift-step8 {} {}", show_raw(z), show_raw(t8)));
+        }
+    }
+
+    // 8. the known class itself (F8): one line per listed segment
+    for &(i, j) in KNOWN_STEPS {
+        g.line("known-class-F8", format!("relkf-drift-step {} {}", i, j));
+    }
 }
